@@ -1,4 +1,152 @@
-//! Process-level harness (E-PROC).
+//! Process-level harness (E-PROC): the real client and server binaries as black boxes.
+
+use crate::ev::Ctx;
+use std::io::Read;
+use std::net::{SocketAddr, UdpSocket};
+use std::path::PathBuf;
+use std::process::{Child, Command, Stdio};
+use std::sync::atomic::AtomicU64;
+use std::time::{Duration, Instant};
+
+pub fn repo_bin(name: &str) -> PathBuf {
+    let dir = std::env::var("VERIF_REPO_BIN").unwrap_or_else(|_| format!("{}/target/repo/debug", crate::ev::verif_dir()));
+    PathBuf::from(dir).join(name)
+}
+
+#[derive(Debug, Clone)]
+pub struct Exit {
+    pub code: Option<i32>,
+    pub signal: Option<i32>,
+    pub stdout: String,
+    pub stderr: String,
+    pub timed_out: bool,
+}
+
+/// Wait for a child with a deadline; kill on timeout. Collects stdout/stderr (piped).
+pub fn wait_child(mut child: Child, timeout: Duration) -> Exit {
+    use std::os::unix::process::ExitStatusExt;
+    let start = Instant::now();
+    // read pipes on helper threads so a chatty child cannot block
+    let mut so = child.stdout.take();
+    let mut se = child.stderr.take();
+    let h1 = std::thread::spawn(move || {
+        let mut s = String::new();
+        if let Some(o) = so.as_mut() {
+            let mut b = vec![];
+            let _ = o.read_to_end(&mut b);
+            s = String::from_utf8_lossy(&b).to_string();
+        }
+        s
+    });
+    let h2 = std::thread::spawn(move || {
+        let mut s = String::new();
+        if let Some(o) = se.as_mut() {
+            let mut b = vec![];
+            let _ = o.read_to_end(&mut b);
+            s = String::from_utf8_lossy(&b).to_string();
+        }
+        s
+    });
+    let mut timed_out = false;
+    let status = loop {
+        match child.try_wait() {
+            Ok(Some(s)) => break Some(s),
+            Ok(None) => {
+                if start.elapsed() > timeout {
+                    let _ = child.kill();
+                    timed_out = true;
+                    break child.wait().ok();
+                }
+                std::thread::sleep(Duration::from_micros(300));
+            }
+            Err(_) => break None,
+        }
+    };
+    let stdout = h1.join().unwrap_or_default();
+    let stderr = h2.join().unwrap_or_default();
+    Exit { code: status.and_then(|s| s.code()), signal: status.and_then(|s| s.signal()), stdout, stderr, timed_out }
+}
+
+// ---------------------------------------------------------------------------------------------
+// client driver with a harness-owned responder
+
+pub struct ClientRun {
+    pub exit: Exit,
+    /// requests received from the client, in arrival order, with their source address
+    pub requests: Vec<(Vec<u8>, SocketAddr)>,
+}
+
+/// Run the real client against a loopback responder. `respond` gets all `n` requests once they
+/// have arrived and returns, per request, the datagrams to send back to that request's source.
+pub fn run_client<F>(args: &[&str], n: usize, respond: F) -> Result<ClientRun, String>
+where
+    F: FnOnce(&[(Vec<u8>, SocketAddr)]) -> Vec<Vec<Vec<u8>>>,
+{
+    let sock = UdpSocket::bind("127.0.0.1:0").map_err(|e| e.to_string())?;
+    sock.set_read_timeout(Some(Duration::from_secs(10))).unwrap();
+    let port = sock.local_addr().unwrap().port();
+    let mut cmd = Command::new(repo_bin("roughenough-client"));
+    cmd.args(args).arg("127.0.0.1").arg(port.to_string());
+    cmd.env("RUST_BACKTRACE", "0").env("TZ", "UTC");
+    cmd.stdin(Stdio::null()).stdout(Stdio::piped()).stderr(Stdio::piped());
+    let child = cmd.spawn().map_err(|e| format!("spawn client: {}", e))?;
+    let mut reqs = vec![];
+    let mut buf = vec![0u8; 65536];
+    while reqs.len() < n {
+        match sock.recv_from(&mut buf) {
+            Ok((l, from)) => reqs.push((buf[..l].to_vec(), from)),
+            Err(e) if e.kind() == std::io::ErrorKind::Interrupted => continue,
+            Err(e) => {
+                let ex = wait_child(child, Duration::from_secs(1));
+                return Err(format!("client sent {} of {} requests ({}); stderr: {}", reqs.len(), n, e, ex.stderr.lines().next().unwrap_or("")));
+            }
+        }
+    }
+    let replies = respond(&reqs);
+    for (k, rs) in replies.iter().enumerate() {
+        for r in rs {
+            let _ = sock.send_to(r, reqs[k].1);
+        }
+    }
+    let exit = wait_child(child, Duration::from_secs(20));
+    if exit.timed_out {
+        return Err("client did not exit within 20 s".into());
+    }
+    Ok(ClientRun { exit, requests: reqs })
+}
+
+/// Time lines printed by the client when run with `-z -f "%s %f"`: (secs, nanos) per line.
+pub fn printed_times(stdout: &str) -> Vec<(u64, u32)> {
+    let mut out = vec![];
+    for l in stdout.lines() {
+        let l = l.trim();
+        let cand = if l.starts_with('{') {
+            // { "midpoint": "S N", "radius": R, "verified": B, "merkle_index": I }
+            match l.split("\"midpoint\": \"").nth(1).and_then(|r| r.split('"').next()) {
+                Some(m) => m.to_string(),
+                None => continue,
+            }
+        } else {
+            l.to_string()
+        };
+        let p: Vec<&str> = cand.split(' ').collect();
+        if p.len() == 2 && p[1].len() == 9 {
+            if let (Ok(s), Ok(n)) = (p[0].parse::<u64>(), p[1].parse::<u32>()) {
+                out.push((s, n));
+            }
+        }
+    }
+    out
+}
+
 pub fn cfgprobe_main(_arg: &str) -> ! {
     std::process::exit(2)
+}
+
+pub fn c20_process_part(_ctx: &Ctx, _scanned: &AtomicU64) -> Result<u64, String> {
+    Ok(0)
+}
+
+pub fn c03_real_server_part(_ctx: &Ctx, _classes: &std::sync::Mutex<std::collections::BTreeMap<String, u64>>) -> Result<u64, String> {
+    Ok(0)
 }
